@@ -278,7 +278,9 @@ type nodeConn struct {
 	id     int64
 	node   *Node
 	nc     net.Conn
-	out    chan outItem
+	qmu    sync.Mutex
+	queue  []outItem
+	qsig   chan struct{}
 	closed int32
 	done   chan struct{}
 	authed bool
@@ -321,7 +323,7 @@ func (n *Node) acceptLoop() {
 			return
 		}
 		c.connSeq++
-		nc := &nodeConn{id: c.connSeq, node: n, nc: conn, out: make(chan outItem, 1<<16), done: make(chan struct{})}
+		nc := &nodeConn{id: c.connSeq, node: n, nc: conn, qsig: make(chan struct{}, 1), done: make(chan struct{})}
 		c.conns[nc.id] = &ConnInfo{ID: nc.id, Node: n.Index, Opened: time.Now()}
 		c.live[nc.id] = nc
 		c.mu.Unlock()
@@ -335,10 +337,27 @@ func (n *Node) acceptLoop() {
 
 func (nc *nodeConn) writer() {
 	for {
-		select {
-		case <-nc.done:
-			return
-		case it := <-nc.out:
+		nc.qmu.Lock()
+		var it outItem
+		have := len(nc.queue) > 0
+		if have {
+			it = nc.queue[0]
+			nc.queue[0] = outItem{}
+			nc.queue = nc.queue[1:]
+			if len(nc.queue) == 0 {
+				nc.queue = nil
+			}
+		}
+		nc.qmu.Unlock()
+		if !have {
+			select {
+			case <-nc.done:
+				return
+			case <-nc.qsig:
+			}
+			continue
+		}
+		{
 			if it.act.Gate != nil {
 				select {
 				case <-it.act.Gate:
@@ -382,9 +401,12 @@ func (nc *nodeConn) writer() {
 }
 
 func (nc *nodeConn) send(req *Request, a Action) {
+	nc.qmu.Lock()
+	nc.queue = append(nc.queue, outItem{req, a})
+	nc.qmu.Unlock()
 	select {
-	case nc.out <- outItem{req, a}:
-	case <-nc.done:
+	case nc.qsig <- struct{}{}:
+	default:
 	}
 }
 
